@@ -8,9 +8,12 @@ S(x) == {x[k] : k \in DOMAIN x}
 
 Decls(s) == {[name |-> s.decls[k].name, wd |-> s.decls[k].wd, ins |-> S(s.decls[k].ins), outs |-> S(s.decls[k].outs)] : k \in DOMAIN s.decls}
 NoFs(w) == [f \in AllIn(w) \cup AllOut(w) |-> 0]     \* every file exists: "unresolved" never applies
+FsOf(s, w) == IF "fsmode" \in DOMAIN s /\ s.fsmode = "none"
+              THEN [f \in AllIn(w) \cup AllOut(w) |-> -1]  \* a fresh project: nothing exists, an unprovided input is unresolved
+              ELSE NoFs(w)
 
 GraphClauses(s, o) ==
-  LET w == Induced(Decls(s))  err == Errors(w, NoFs(w)) IN
+  LET w == Induced(Decls(s))  err == Errors(w, FsOf(s, w)) IN
   [ C04_accept |-> o.built <=> err = {},
     C04_kind   |-> ~o.built => o.kind \in err,
     C03_deps   |-> o.built => \A t \in w.T : S(o.deps[t]) = Deps(w, t),
